@@ -1,5 +1,104 @@
 package main
 
-import "os"
+import (
+	"encoding/json"
+	"fmt"
+	"os"
+	"os/signal"
+	"sync"
+	"sync/atomic"
+	"syscall"
+	"time"
 
-func run() { os.Exit(0) }
+	plugin "github.com/hashicorp/go-plugin"
+	"github.com/hashicorp/go-plugin/verifharness/vp"
+)
+
+func run() {
+	var pc vp.PluginCfg
+	raw := os.Getenv(vp.CfgEnv)
+	if raw == "" {
+		fmt.Fprintln(os.Stderr, "vplugin: no "+vp.CfgEnv)
+		os.Exit(64)
+	}
+	if err := json.Unmarshal([]byte(raw), &pc); err != nil {
+		fmt.Fprintln(os.Stderr, "vplugin: bad config:", err)
+		os.Exit(64)
+	}
+	if pc.IgnoreTerm {
+		signal.Ignore(syscall.SIGTERM)
+	}
+
+	// hook events of the plugin process: crash points and (optionally) an event log
+	var logMu sync.Mutex
+	var logF *os.File
+	if pc.EventLog != "" {
+		logF, _ = os.OpenFile(pc.EventLog, os.O_CREATE|os.O_APPEND|os.O_WRONLY, 0o644)
+	}
+	var seq int64
+	counts := map[string]int{}
+	logEvent := func(ev string, a, b int64) {
+		if logF == nil {
+			return
+		}
+		n := atomic.AddInt64(&seq, 1)
+		line, _ := json.Marshal(map[string]interface{}{"seq": n, "ev": ev, "a": a, "b": b, "pid": os.Getpid(), "t": time.Now().UnixMilli()})
+		logMu.Lock()
+		logF.Write(append(line, '\n'))
+		logMu.Unlock()
+	}
+	plugin.VerifSetHook(func(ev string, obj interface{}, a, b int64) {
+		logEvent(ev, a, b)
+		if pc.Crash != nil && pc.Crash.Event == ev {
+			logMu.Lock()
+			counts[ev]++
+			n := counts[ev]
+			logMu.Unlock()
+			if n == pc.Crash.Nth || (pc.Crash.Nth == 0 && n == 1) {
+				if pc.Crash.DelayMs > 0 {
+					time.Sleep(time.Duration(pc.Crash.DelayMs) * time.Millisecond)
+				}
+				if pc.Crash.How == "kill" {
+					syscall.Kill(os.Getpid(), syscall.SIGKILL)
+					time.Sleep(5 * time.Second)
+				}
+				os.Exit(3)
+			}
+		}
+	})
+
+	if pc.PreStdout != "" {
+		os.Stdout.WriteString(pc.PreStdout)
+	}
+
+	if pc.MockLine != "" || pc.MockThen != "" {
+		// do not serve: print the given bytes as the first stdout output and behave as told
+		os.Stdout.WriteString(pc.MockLine)
+		switch pc.MockThen {
+		case "exit":
+			os.Exit(0)
+		case "close":
+			os.Stdout.Close()
+			select {}
+		default:
+			select {}
+		}
+	}
+
+	sc := pc.ServeConfig()
+	plugin.Serve(sc)
+
+	// Serve returned: the host asked us to quit (or the listener failed)
+	logEvent("vplugin.serve.returned", 0, 0)
+	kind, ms := vp.ParseAfter(pc.AfterServe)
+	switch kind {
+	case "sleep":
+		time.Sleep(time.Duration(ms) * time.Millisecond)
+	case "hang":
+		select {}
+	}
+	if pc.Marker != "" {
+		os.WriteFile(pc.Marker, []byte("clean\n"), 0o644)
+	}
+	os.Exit(0)
+}
